@@ -141,6 +141,8 @@ fn hostile_completer(inner: Node, id: usize, u: &mut Un) -> Node {
 pub fn decode(bytes: &[u8]) -> Case {
     let mut u = Un::new(bytes);
     let mut names = Names::new();
+    // names longer than the 24 columns the renderers pad candidates to
+    names.mid_names = true;
     let mut level = gen_broad_level(&mut u, &mut names, &crate::props::c14::cfg(), 1);
     add_hostile(&mut level.body, &mut u);
     let sent = SentGen {
